@@ -212,7 +212,7 @@ Proof. exact wr_request_path_recovers. Qed.
 Example C12_partial_poll_instance :
   let c1 := rrun_config (wr_multi 1) (repeat 0%nat 400) in
   let c2 := rrun_config (wr_multi 2) (repeat 0%nat 400) in
-  delivered (rc_log c1) = [2001; 2002]%N /\ rc_flag c1 = false /\ rc_lkb c1 = 120%N /\
+  delivered (rc_log c1) = [2001; 2002]%N /\ rc_flag c1 = true /\ rc_lkb c1 = 124%N /\ rc_height c1 = 122%N /\
   delivered (rc_log c2) = [2001; 2002; 2003; 2004]%N /\ rc_flag c2 = true /\ rc_lkb c2 = 124%N /\ rc_pending c2 = [] /\
   find_trk (db_trks (rc_tower c2)) (7%N, 1%N) <> None.
 Proof. exact wr_partial_poll. Qed.
